@@ -46,6 +46,17 @@ CHECKS = {
         "runtime monitoring: reference-model oracle over entity.permission, exhaustive cell enumeration",
         "3/C04",
     ),
+    "C08": (
+        "exploration",
+        "Runtime monitor on the real parser + correlate(): executable parts are generated from a statement/expression grammar that "
+        "records, per statement, the user procedures it invokes; unit.calls of module procedures, internal procedures, main "
+        "programs and external procedures is compared with that ground truth (set equality, no duplicates); a recorder on "
+        "FortranContainer._add_procedure_calls ties every recorded chain to the statement that produced it.",
+        "Trusts the grammar's bookkeeping; unique procedure names; one known finding (declarations inside BLOCK constructs) is "
+        "suppressed only for names the generator declared inside a BLOCK.",
+        "runtime monitoring: reference-model oracle over unit.calls + recorder on _add_procedure_calls",
+        "3/C08",
+    ),
     "C14": (
         "exploration",
         "Runtime monitor (metamorphic) on the real fixed-to-free converter + reader + parser: each generated program is written "
